@@ -47,6 +47,14 @@ def _direct(ctx, current, mon):
         if reuse is not None:
             hostile = (hostile or "generic") + "+grid-of-previous-case"
         prev = (spec.v0, t, v, spec.weights, strains, spec.nq, spec.natoms)
+        if i % 5 == 4:
+            # one axis lengthens under compression (negative linear compressibility): its strain fraction is negative, the
+            # off-diagonal gaps that involve it are negative; the fractions still sum to 1
+            k = int(rng.integers(0, 3))
+            strains = strains.copy()
+            strains[:, k] *= -float(rng.uniform(0.2, 0.8))
+            strains /= strains.sum(axis=1, keepdims=True)
+            hostile = (hostile or "generic") + "+negative-axis"
         # heat capacity: positive fields over many decades; one class with a non-positive patch (not judged there)
         cvk = i % 4
         cv = calc.qha_calculator.volume_base.heat_capacity
